@@ -610,11 +610,12 @@ impl MapKeys {
         let mut key_index = start;
         loop {
             let row_key = self.keys.row(key_index);
-            if key.unpacked_ref() == row_key.unpacked_ref() {
-                return Some(self.indices[key_index]);
-            }
+            // The placeholder cells are NaNs, which compare equal to a NaN key
             if row_key.is_any_empty_cell() {
                 return None;
+            }
+            if !row_key.is_any_tombstone() && key.unpacked_ref() == row_key.unpacked_ref() {
+                return Some(self.indices[key_index]);
             }
             key_index = (key_index + 1) % self.capacity();
             if key_index == start {
@@ -640,15 +641,18 @@ impl MapKeys {
             loop {
                 let cell_key =
                     &mut key_data[key_index * key_row_len..(key_index + 1) * key_row_len];
-                if ArrayCmpSlice(cell_key) == ArrayCmpSlice(&key.data) {
+                // The placeholder cells are NaNs, which compare equal to a NaN key
+                if cell_key.first().is_some_and(K::is_any_empty_cell) {
+                    break None;
+                }
+                if !cell_key.first().is_some_and(K::is_any_tombstone)
+                    && ArrayCmpSlice(cell_key) == ArrayCmpSlice(&key.data)
+                {
                     *len -= 1;
                     for elem in cell_key {
                         *elem = K::tombstone_cell();
                     }
                     break Some(take(&mut indices[key_index]));
-                }
-                if cell_key[0].is_any_empty_cell() {
-                    break None;
                 }
                 key_index = (key_index + 1) % capacity;
                 if key_index == start {
